@@ -2,6 +2,8 @@
 use crate::ctx::{Ctx, Outcome, Tier};
 use serde_json::Value;
 
+pub mod c10;
+pub mod c11;
 pub mod c20;
 
 pub trait Prop {
@@ -36,7 +38,7 @@ pub trait Prop {
 }
 
 pub fn all() -> Vec<Box<dyn Prop>> {
-    vec![Box::new(c20::C20)]
+    vec![Box::new(c10::C10), Box::new(c11::C11), Box::new(c20::C20)]
 }
 
 pub fn lookup(id: &str) -> Option<Box<dyn Prop>> {
